@@ -53,6 +53,14 @@ CHECKS = {
    text="ApiReq.tla defines the request space of all 19 REST and gRPC endpoints as a product of per-field variants (absent, null, wrong type, empty, separator-laden, huge, negative, unknown namespace, incomplete / double / absent subjects, body and batch shapes, arbitrary OPL bytes, wrong method/route) and the predicate every reply must satisfy (handler returns, process lives, no 5xx / Internal, state unchanged on errors and on reads). TLC draws the requests; the harness sends each to the real routers and handler methods with a byte-level dump around it; a shard that dies is restarted without the request that was in flight, which is reported.",
    note="A seeded sample of each endpoint's product (60 / 600 per endpoint) plus fixed corner requests; gRPC handler methods are called directly (no interceptor chain); messages are kept wire-well-formed (no nil elements in repeated fields).",
    technique="TLC-generated request space replayed on the real handlers with crash detection", ref="4/C13"),
+ "C10": dict(
+   text="OplGrammar.tla generates permission expressions as abstract syntax (so their TypeScript meaning, the truth table TT, is fixed by construction) and prints them with TypeScript's minimal parentheses in every spelling variant the language allows (dot/bracket access, T[] / Array<T> / parenthesised unions, optional annotations, quoted names, separators, trailing commas, comments, redundant parentheses, !!). Every program goes through the real parser: it must be accepted, yield the declared relations, and the rewrite it builds must have the truth table of the TypeScript expression (evaluated on the parsed AST, and for a sample by a real server configured with the program).",
+   note="Expressions over three leaves, nesting depth 2 exhaustively (thorough) and depth 3 sampled; one namespace layout; tuple-to-subject-set bodies are covered by the check-engine families, not here.",
+   technique="TLC-generated programs with spec-computed truth tables replayed through the real parser and engine", ref="4/C10"),
+ "C12": dict(
+   text="OplLex.tla is the lexer as an automaton over character classes with the totality argument (every state function consumes a character or ends the scan: at most |input|+1 items, one final EOF/Error item, ordered in-range positions), checked by TLC on every string up to length 3 over a 30-symbol alphabet plus random longer ones; each string is lexed by the real lexer and the items with byte offsets must equal the model's. The parser is run on the same strings, on token deletions/duplications/swaps of a valid program, unterminated comments/strings and truncations at every position, nesting 1..10^4, a 0.5 MB input and random byte strings with invalid UTF-8: no panic, every error renders (Error, ToAPI, ToProto) with 1 <= start.line <= end.line <= lines+1, and the REST and gRPC syntax endpoints report the same errors.",
+   note="'Time linear in the input' is not decided by this technique: only a 10 s per-input sanity bound (exit 2). Lexer-model keywords: {ctx}.",
+   technique="TLA+ model checking of a lexer automaton + model-vs-implementation item comparison + grammar-directed near-miss replay", ref="4/C12"),
 }
 NOT_YET = "check not built yet in this session (work in progress, see DESIGN.md section 12)"
 
